@@ -517,6 +517,14 @@ type verifEnums struct {
 
 func (l verifEnums) Len() int                              { return len(l.list) }
 func (l verifEnums) Get(i int) protoreflect.EnumDescriptor { return l.list[i] }
+func (l verifEnums) ByName(n protoreflect.Name) protoreflect.EnumDescriptor {
+	for _, e := range l.list {
+		if e.Name() == n {
+			return e
+		}
+	}
+	return nil
+}
 
 type VerifEnumValue struct {
 	protoreflect.EnumValueDescriptor
